@@ -207,6 +207,9 @@ PipelineVerdict(post, children) ==
 HandleVerdict(post, children) ==
   LET det == cfg.detached IN
     V(~(Hung /\ HangExplained), "C12_no_self_inflicted_hang")
+    \* C01 names Exec/Pipeline::capture among the exchanges that always finish
+    \cup V(cfg.handle \in {"capture", "capture_data", "pl_capture", "pl_capture_data"} => ~(Hung /\ HangExplained),
+           "C01_capture_never_finishes")
     \cup V(~det => children = "none" /\ \A i \in 1..Len(afterDrop) : afterDrop[i][2] = "gone", "C12_reaped")
     \cup V(det => waitsAfterMark = 0 /\ \A i \in 1..Len(afterDrop) : afterDrop[i][2] # "gone", "C12_detached_never_reaps")
     \cup V(res.ok \/ cfg.may_fail, "C12_handle_call_failed")
